@@ -148,6 +148,39 @@ func FoldTrap(t *rapid.T, s string) string {
 	return s[:i] + alts[rapid.IntRange(0, len(alts)-1).Draw(t, "trapalt")] + s[i+1:]
 }
 
+// FoldTrapPart is FoldTrap restricted to one part of a Bech32 string: 0 the human-readable part, 1 the data
+// symbols, 2 the six checksum characters (a validation that skips one part of the string, or that runs
+// after the case folding for one part only, is invisible unless the trap sits exactly there). The string is
+// upper-cased first half of the time (ToLower maps the KELVIN SIGN onto k only then).
+func FoldTrapPart(t *rapid.T, s string) string {
+	if rapid.Bool().Draw(t, "trapupper") {
+		s = Upper(s)
+	}
+	sep := strings.LastIndexByte(s, '1')
+	if sep < 1 || len(s)-sep-1 < 6 {
+		return FoldTrap(t, s)
+	}
+	lo, hi := 0, sep
+	switch h.Pick(t, "trappart", 1, 1, 1) {
+	case 1:
+		lo, hi = sep+1, len(s)-6
+	case 2:
+		lo, hi = len(s)-6, len(s)
+	}
+	var idx []int
+	for i := lo; i < hi; i++ {
+		if _, ok := foldTraps[s[i]]; ok {
+			idx = append(idx, i)
+		}
+	}
+	if len(idx) == 0 {
+		return FoldTrap(t, s)
+	}
+	i := idx[rapid.IntRange(0, len(idx)-1).Draw(t, "trapp")]
+	alts := foldTraps[s[i]]
+	return s[:i] + alts[rapid.IntRange(0, len(alts)-1).Draw(t, "trapaltp")] + s[i+1:]
+}
+
 // Edit applies one random edit (substitute / insert / delete / duplicate / truncate / fold trap) to s.
 func Edit(t *rapid.T, s string) string {
 	switch h.Pick(t, "trapk", 10, 2, 1) {
